@@ -4,8 +4,8 @@ From Coq Require Import List Bool Arith NArith ZArith String.
 From Coq.Strings Require Import Byte.
 From Verif.Base Require Import Bytes Outcome Str.
 From Verif.Model Require Import IE Codec Record SetB Msg Exporter.
-From Verif.Proofs Require Import SetB_lemmas Exporter_lemmas C08_lemmas C09_lemmas C09_refuted.
-From Verif.Driver Require Import Show SetShow HistShow C09drv.
+From Verif.Proofs Require Import SetB_lemmas Exporter_lemmas C08_lemmas C09_lemmas C09_refuted C09_oracle.
+From Verif.Driver Require Import Show SetShow HistShow RfcCheck C09drv.
 Import ListNotations.
 Local Open Scope N_scope.
 
@@ -30,6 +30,23 @@ Theorem C09_error_writes_nothing : forall st s t k,
 Proof. exact send_set_err_nothing. Qed.
 Print Assumptions C09_error_writes_nothing.
 
+(* The per-case oracle of the check (C09_holds_on, Driver/C09drv.v: per call (c) an error or
+   panic wrote nothing; a success (b) wrote at most 65535 bytes, the count reported, (a) a data
+   set only under a wire set id whose template record with every record's field count was sent
+   earlier, every record with that id, (e) every transmitted value a value of its element, and
+   (d)/(e) the transmitted bytes satisfy the RFC 7011 demand of C02 - independent parser, octets
+   of every value - whenever they are reported in full) holds on the model's own observation
+   of EVERY case within the hypotheses [c09_wf]: no call panics; each set was built with a single
+   PrepareSet (records of the set's own kind, template header written by PrepareSet); every
+   value of a data record is a Go value of its element's kind (kind = data type, number within
+   the Go type, element width = the type's width) - values that are well-kinded but not
+   encodable (address family, MAC / octet-array length, nil) are inside the hypotheses. The oracle
+   is a function of the structured observation; show_hist / parse_hobs only print / read it. *)
+Theorem C09_oracle_on_model : forall c,
+  c09_wf c (fst (hist_model cur c)) = true -> C09_holds_on c (hist_model cur c) = true.
+Proof. exact c09_oracle_on_model. Qed.
+Print Assumptions C09_oracle_on_model.
+
 (* On the faithful model of the code BEFORE the repairs the statement is false: witnesses
    (replayed on the real unrepaired code, see notes/C09.md; kept in corpus/C09) *)
 Theorem C09_refuted_F6_orig : refutes orig case_f6 = true /\ refutes orig case_f6_mac = true.
@@ -53,3 +70,17 @@ Print Assumptions C09_refuted_F12_orig.
 Example C09_nonvacuous :
   st_wf (mkExp 1 0 [] false) /\ on_wire (x_tpls (mkExp 1 0 [] false)) [].
 Proof. split; [reflexivity|apply on_wire_empty]. Qed.
+
+(* the hypotheses of C09_oracle_on_model hold for a mixed history: template, valid data,
+   a data record with an IPv6 address in an IPv4 element (refused), an unknown template id *)
+Definition c09_case : string :=
+  "tcp 5 0 full S P T 300 A 1 300 2 7 6 0 2 i16 0 8 18 0 4 ip nil ; S P D 300 A 1 300 2 7 6 0 2 i16 -2 8 18 0 4 ip hex 0a000001 ; S P D 300 A 1 300 2 7 6 0 2 i16 5 8 18 0 4 ip hex 20010db8000000000000000000000001 ; S P D 301 A 1 301 2 7 6 0 2 i16 5 8 18 0 4 ip hex 0a000001 ;".
+Example C09_oracle_nonvacuous :
+  match parse_hcase (tokens c09_case) with
+  | Some c => let m := hist_model cur c in
+              c09_wf c (fst m) && C09_holds_on c m &&
+              list_eqb String.eqb (map (fun o => show_sres (so_res o)) (fst m))
+                       ["r=ok:32"; "r=ok:26"; "r=err:encode"; "r=err:notemplate"]%string
+  | None => false
+  end = true.
+Proof. vm_compute. reflexivity. Qed.
